@@ -123,7 +123,13 @@ outside CPython's small-integer cache, so that equal objects are not identical),
 Python *string* `str(1000 * k)` — a different object with the same `str`, so that this `str` is NOT
 injective: `pyStr 7 = pyStr (-7)`.  The consistency theorems assume an injective `str` (`hstr`);
 `C18_str_collision_refuted` shows that the assumption is needed, and the driver probes the library there. -/
-def pyStr (o : Obj) : Key := if o = 0 then "None" else Int.repr (o.natAbs * 1000)
+def pyStr (o : Obj) : Key :=
+  if o = 0 then "None"
+  -- objects 900..909 are the (unhashable) sets `{1000*o}`, objects 910..919 carry a `name` attribute "n<o>"
+  -- (`_named_objs` labels an object by `obj.name`, `obj.__name__`, else `str(obj)`)
+  else if 900 ≤ o ∧ o < 910 then "{" ++ Int.repr (o * 1000) ++ "}"
+  else if 910 ≤ o ∧ o < 920 then "n" ++ Int.repr o
+  else Int.repr (o.natAbs * 1000)
 
 def payloadOld (s : St) : Payload :=       -- `dict(names) or list(_objects)`
   if s.names ≠ [] then .dct s.names else .lst s.objs
